@@ -81,6 +81,27 @@ def strategy(tier):
     return case()
 
 
+GRID_DESC = {
+    "quick": "automatic piece length: payload of 18,000,000 bytes (above the 16,384,000-byte step) of which one half is reached through a "
+             "symbolic link to a sibling directory, vs. its dereferenced byte-identical copy elsewhere, five creators x library/CLI",
+    "thorough": "same, plus totals around the 32,768,000-byte step",
+}
+
+
+def grid(tier):
+    cases = []
+    steps = [9000000] if tier == "quick" else [9000000, 17000000]
+    for half in steps:
+        for creator in ("TorrentFile", "Assembler2", "Assembler3", "TorrentFileV2", "TorrentFileHybrid"):
+            for route in (("lib", "cli") if creator in CLI_CREATORS else ("lib",)):
+                var = dict(BASE_ENV, copy=True)
+                tree = {"name": "auto", "single": False,
+                        "files": [{"path": ["disc1", "b.bin"], "size": half, "mode": "const", "seed": 5}],
+                        "dirlinks": [{"path": ["disc2"], "target": "disc1"}]}
+                cases.append({"tree": tree, "P": None, "creator": creator, "route": route, "info_opts": {}, "variant": var})
+    return cases
+
+
 def spell(kind, root, cwd, tree):
     """Return (path string, cwd to use) or None when the spelling does not apply."""
     parent, name = os.path.split(root)
@@ -136,7 +157,9 @@ def create(case, env, root, scr, tag):
         with listdir.ListdirOrder(env["order"]), clock.FrozenClock([target.torrent], env["clock"]):
             if case["route"] == "cli":
                 argv = (["-q"] if env["quiet"] else []) + ["create", "--meta-version", CLI_CREATORS[case["creator"]], "-o", out,
-                                                            "--prog", str(env["progress"]), "--piece-length", str(case["P"])]
+                                                            "--prog", str(env["progress"])]
+                if case["P"] is not None:
+                    argv += ["--piece-length", str(case["P"])]
                 argv += edits.options_to_cli(opts)
                 argv.append(path)
                 target.execute(argv)
@@ -216,6 +239,20 @@ def run_case(case):
     classes = ["dim-" + d for d in dims] or ["identical-rerun"]
     if applied and var["spelling"] != "abs":
         classes.append("spelling-" + var["spelling"])
+    if var["copy"] and (tree.get("dirlinks") or tree.get("links")):
+        # the copy is dereferenced: it is the same payload only as long as the tool publishes what links point to under the
+        # link's name (it does).  Should it list other files for the two trees, they are different payloads - not judged.
+        def listed(m):
+            try:
+                if b"file tree" in m.info:
+                    return sorted(("/".join(p), n) for p, n, _ in m.tree_leaves())
+                ent = m.v1_entries()
+                return None if ent is None else sorted(("/".join(p), n) for p, n, pad in ent if not pad)
+            except Exception:  # noqa: BLE001
+                return None
+        if listed(mb) != listed(mv):
+            return Outcome(None, False, classes + ["copy-of-links-lists-other-files"])
+        classes.append("links-vs-dereferenced-copy")
     if fresh is not None:
         classes.append("vs-fresh-interpreter")
         if fresh.get("info") != mv.info_span.hex():
